@@ -660,6 +660,7 @@ func init() {
 					json.Unmarshal(b, &r)
 				}
 				c.Add("ownership_scripts", 1)
+				c.Add("evaluations", 1)
 				c.Add("readonly_crash_images", r.Images)
 				for _, v := range r.Viol {
 					c.Report(&explore.Violation{Property: "C18", Sig: map[string]string{"check": "ownership", "stor": metas[i].Stor, "effect": v}, Detail: map[string]any{"task": metas[i], "violation": v}})
